@@ -43,6 +43,10 @@ type CrashDS struct {
 	// QueryOrder: how an unordered Query iterates. go-datastore promises no order unless the query asks
 	// for one: "" / "sorted" = lexicographic (badger), "reverse", "scrambled" (by a hash of the key, like a map)
 	QueryOrder string
+	// GetHook, when set, is called by Get after the value was read and before it is returned to the caller:
+	// the place where another goroutine's write can slip in between a read of the database and what the
+	// reader does with it (interleaving injection at the datastore boundary).
+	GetHook func(key string)
 }
 
 var _ ds.Batching = (*CrashDS)(nil)
@@ -188,15 +192,21 @@ func (d *CrashDS) Delete(ctx context.Context, key ds.Key) error {
 
 func (d *CrashDS) Get(ctx context.Context, key ds.Key) ([]byte, error) {
 	d.mu.Lock()
-	defer d.mu.Unlock()
 	if d.dead {
+		d.mu.Unlock()
 		return nil, ErrDead
 	}
 	v, ok := d.data[key.String()]
+	out := append([]byte(nil), v...)
+	hook := d.GetHook
+	d.mu.Unlock()
+	if hook != nil {
+		hook(key.String())
+	}
 	if !ok {
 		return nil, ds.ErrNotFound
 	}
-	return append([]byte(nil), v...), nil
+	return out, nil
 }
 
 func (d *CrashDS) Has(ctx context.Context, key ds.Key) (bool, error) {
